@@ -262,6 +262,40 @@ func run(c Case) *hx.Outcome {
 			break
 		}
 	}
+	// epilogue: the scanner keeps running in a server. A second pass over what the first one
+	// left (emptied mailboxes among it), then new mail for every mailbox: it must get an id no
+	// earlier message of that mailbox had, and a third pass must leave it alone.
+	if !o.Failed() {
+		if err := rs.DoScan(context.Background()); err != nil {
+			o.Failf(pid+":scan-error", "[%s] second DoScan returned %v", c.Backend, err)
+		}
+		issued := map[string]bool{}
+		for _, w := range all {
+			issued[w.box+"/"+w.id] = true
+		}
+		var later []*want
+		for _, b := range names {
+			body := []byte("Subject: after the scans\r\n\r\nyoung\r\n")
+			id, err := st.AddMessage(hx.NewDelivery(b, nil, nil, time.Now(), "young", body))
+			if err != nil {
+				o.Failf(pid+":harness", "AddMessage after the scans: %v", err)
+				break
+			}
+			if issued[b+"/"+id] {
+				o.Failf(pid+":id-reissued", "[%s] after two scans a delivery to %q received id %s, which an earlier message of that mailbox already had", c.Backend, b, id)
+			}
+			later = append(later, &want{box: b, id: id, body: body})
+		}
+		if err := rs.DoScan(context.Background()); err != nil {
+			o.Failf(pid+":scan-error", "[%s] third DoScan returned %v", c.Backend, err)
+		}
+		for _, w := range later {
+			if sm, gerr := st.GetMessage(w.box, w.id); gerr != nil || sm == nil {
+				o.Failf(pid+":young-deleted", "[%s] message %s/%s delivered after the scans is younger than the period but a later scan deleted it (%v)", c.Backend, w.box, w.id, gerr)
+				break
+			}
+		}
+	}
 	if injected > 0 {
 		o.Class("operations injected during the scan")
 	}
